@@ -5,7 +5,7 @@ from vlib import core
 THEOREMS = ["Props.C16." + t for t in [
     "fuel_suffices", "mark_sound", "mark_exact", "always_kept", "consts_typedefs_reachable", "kept_bodies_unchanged",
     "kept_refs_kept", "services_nofilter", "method_filter", "trim_resolves_partial",
-    "base_service_dropped", "not_idempotent_with_methods", "fuel_independent", "bindings_preserved"]]
+    "base_service_kept_regression", "repaired_witnesses", "not_idempotent_with_methods", "fuel_independent", "bindings_preserved"]]
 
 PARTIAL = [
     "trim_resolves: type references (kept_refs_kept, bindings_preserved: same definitions as before) and, without -m, cross-file bases and same-file bases of root services (trim_resolves_partial) are proved; the full statement is false for a base service declared in the same included file as its heir - Props.C16.base_service_dropped is the decide-checked counterexample, reproduced on TrimAST by the oracle class trim-error",
